@@ -16,6 +16,7 @@ import (
 	banktypes "github.com/cosmos/cosmos-sdk/x/bank/types"
 	slashingtypes "github.com/cosmos/cosmos-sdk/x/slashing/types"
 	stakingtypes "github.com/cosmos/cosmos-sdk/x/staking/types"
+	"github.com/dvsekhvalnov/jose2go/base64url"
 	"github.com/ipfs/go-cid"
 	mh "github.com/multiformats/go-multihash"
 )
@@ -49,6 +50,7 @@ type Op struct {
 	Acc int     `json:"acc,omitempty"` // accused SP (+1)
 	Mis string  `json:"mis,omitempty"` // fault report mismatch kind
 	Dup int     `json:"dup,omitempty"` // deliver the same tx bytes again this many times
+	Sid  bool   `json:"sid,omitempty"`  // the JWS signer acts as a sid DID (key document of actor Own) instead of its did:key
 	Slot int    `json:"slot,omitempty"` // complete/migrate: act as the holder of the Slot-th open (resp. completed) shard of the data
 	Note string `json:"note,omitempty"`
 }
@@ -82,7 +84,7 @@ func (e *Env) data(d int) *DataInfo {
 // ownerOf returns the actor owning data d according to the chain's metadata.
 func (e *Env) ownerOf(d *DataInfo) *Actor {
 	if m, ok := e.Cur.Model.Metas[d.DataId]; ok {
-		return e.W.ByDid[m.Owner]
+		return e.actorOfDid(m.Owner)
 	}
 	return nil
 }
@@ -125,15 +127,92 @@ type Built struct {
 type marshaler interface{ Marshal() ([]byte, error) }
 
 func (e *Env) jws(signer *Actor, p marshaler, tam string, alt marshaler) saotypes.JwsSignature {
+	return e.jwsAs(signer, "", p, tam, alt)
+}
+
+// signerDid returns the DID string the actor signs as (its did:key, or the sid it created).
+func (e *Env) signerDid(a *Actor, sid bool) string {
+	if sid {
+		if d := e.sidCreatedBy(a); d != "" {
+			return d
+		}
+	}
+	return a.Did
+}
+
+// signAs decides which DID string the signer uses for a request on a model owned by metaOwner.
+func (e *Env) signAs(signer *Actor, metaOwner string, opSid bool) (string, string) {
+	if strings.HasPrefix(metaOwner, "did:sid:") && e.actorOfDid(metaOwner) == signer {
+		return metaOwner, metaOwner
+	}
+	d := e.signerDid(signer, opSid)
+	if strings.HasPrefix(d, "did:sid:") {
+		return d, d
+	}
+	return d, ""
+}
+
+// sidCreatedBy returns the sid DID whose first key document was made from the actor's sid key.
+func (e *Env) sidCreatedBy(a *Actor) string {
+	want := sidPubKeys(a, 0)[0].Value
+	for _, root := range sortedKeys(e.Cur.Did.SidVersions) {
+		if doc, ok := e.Cur.Did.SidDocs[root]; ok && len(doc.Keys) > 0 && doc.Keys[0].Value == want {
+			return "did:sid:" + root
+		}
+	}
+	return ""
+}
+
+// actorOfDid maps a DID (did:key or sid) back to the actor that controls its keys.
+func (e *Env) actorOfDid(did string) *Actor {
+	if a := e.W.ByDid[did]; a != nil {
+		return a
+	}
+	if strings.HasPrefix(did, "did:sid:") {
+		root := strings.TrimPrefix(did, "did:sid:")
+		if doc, ok := e.Cur.Did.SidDocs[root]; ok && len(doc.Keys) > 0 {
+			for _, a := range e.W.Actors {
+				if sidPubKeys(a, 0)[0].Value == doc.Keys[0].Value {
+					return a
+				}
+			}
+		}
+	}
+	return nil
+}
+
+func (e *Env) jwsAs(signer *Actor, sidDid string, p marshaler, tam string, alt marshaler) saotypes.JwsSignature {
 	bz, _ := p.Marshal()
 	if tam == "payload" && alt != nil {
 		bz, _ = alt.Marshal()
 	}
-	g, err := signer.Prov.CreateJWS(bz)
-	if err != nil {
-		panic(err)
+	var s saotypes.JwsSignature
+	if sidDid != "" {
+		root := strings.TrimPrefix(sidDid, "did:sid:")
+		vers := e.Cur.Did.SidVersions[root]
+		idx := len(vers) - 1
+		if idx < 0 {
+			idx = 0
+		}
+		ver := root
+		if len(vers) > 0 {
+			ver = vers[idx]
+		}
+		hdr := fmt.Sprintf(`{"kid":"%s?versionId=%s#key-%d","alg":"ES256K"}`, sidDid, ver, idx)
+		prot := base64url.Encode([]byte(hdr))
+		input := prot + "." + base64url.Encode(bz)
+		sig, err := sidKey(signer, idx).Sign([]byte(input))
+		if err != nil {
+			panic(err)
+		}
+		s = saotypes.JwsSignature{Protected: prot, Signature: base64url.Encode(sig)}
+	} else {
+		g, err := signer.Prov.CreateJWS(bz)
+		if err != nil {
+			panic(err)
+		}
+		s = saotypes.JwsSignature{Protected: g.Signatures[0].Protected, Signature: g.Signatures[0].Signature}
 	}
-	s := saotypes.JwsSignature{Protected: g.Signatures[0].Protected, Signature: g.Signatures[0].Signature}
 	if tam == "sig" {
 		b := []byte(s.Signature)
 		if len(b) > 10 {
@@ -380,14 +459,16 @@ func (e *Env) build(op *Op) (*Built, string) {
 			owner = signer
 		}
 		prov := e.ref(op.Prov, a)
-		p := saotypes.TerminateProposal{Owner: signer.Did, DataId: d.DataId}
-		alt := saotypes.TerminateProposal{Owner: signer.Did, DataId: e.data(op.D + 1).DataId}
-		if op.Tam == "ownerfield" {
-			p.Owner = owner.Did
+		mo := s.Model.Metas[d.DataId].Owner
+		sdid, sidDid := e.signAs(signer, mo, op.Sid)
+		p := saotypes.TerminateProposal{Owner: sdid, DataId: d.DataId}
+		alt := saotypes.TerminateProposal{Owner: sdid, DataId: e.data(op.D + 1).DataId}
+		if op.Tam == "ownerfield" && mo != "" {
+			p.Owner = mo
 		}
-		sig := e.jws(signer, &p, op.Tam, &alt)
+		sig := e.jwsAs(signer, sidDid, &p, op.Tam, &alt)
 		return &Built{Msgs: []sdk.Msg{saotypes.NewMsgTerminate(a.AddrS, p, sig, prov.AddrS)}, Signer: a,
-			Auth: &AuthTruth{SignerDid: signer.Did, Intact: op.Tam == "" || (op.Tam == "ownerfield" && owner != nil && owner.Did == signer.Did), DataIds: []string{d.DataId}, Kind: "terminate"}}, ""
+			Auth: &AuthTruth{SignerDid: sdid, Intact: op.Tam == "" || (op.Tam == "ownerfield" && p.Owner == sdid), DataIds: []string{d.DataId}, Kind: "terminate"}}, ""
 	case "renew":
 		if len(op.Ds) == 0 {
 			return nil, "no-data"
@@ -402,7 +483,9 @@ func (e *Env) build(op *Op) (*Built, string) {
 			owner = signer
 		}
 		prov := e.ref(op.Prov, a)
-		p := saotypes.RenewProposal{Owner: signer.Did, Duration: op.Dur, Timeout: op.Tmo}
+		mo := s.Model.Metas[first.DataId].Owner
+		sdid, sidDid := e.signAs(signer, mo, op.Sid)
+		p := saotypes.RenewProposal{Owner: sdid, Duration: op.Dur, Timeout: op.Tmo}
 		var ids []string
 		for _, di := range op.Ds {
 			p.Data = append(p.Data, e.data(di).DataId)
@@ -410,12 +493,12 @@ func (e *Env) build(op *Op) (*Built, string) {
 		}
 		alt := p
 		alt.Duration = op.Dur + 1
-		if op.Tam == "ownerfield" {
-			p.Owner = owner.Did
+		if op.Tam == "ownerfield" && mo != "" {
+			p.Owner = mo
 		}
-		sig := e.jws(signer, &p, op.Tam, &alt)
+		sig := e.jwsAs(signer, sidDid, &p, op.Tam, &alt)
 		return &Built{Msgs: []sdk.Msg{saotypes.NewMsgRenew(a.AddrS, &p, &sig, prov.AddrS)}, Signer: a,
-			Auth: &AuthTruth{SignerDid: signer.Did, Intact: op.Tam == "" || (op.Tam == "ownerfield" && owner != nil && owner.Did == signer.Did), DataIds: ids, Kind: "renew"}}, ""
+			Auth: &AuthTruth{SignerDid: sdid, Intact: op.Tam == "" || (op.Tam == "ownerfield" && p.Owner == sdid), DataIds: ids, Kind: "renew"}}, ""
 	case "migrate":
 		if op.Slot > 0 && len(op.Ds) > 0 {
 			if h := e.holderOf(e.data(op.Ds[0]), op.Slot, true); h != nil {
@@ -441,7 +524,9 @@ func (e *Env) build(op *Op) (*Built, string) {
 			owner = signer
 		}
 		prov := e.ref(op.Prov, a)
-		p := saotypes.PermissionProposal{Owner: signer.Did, DataId: d.DataId}
+		mo := s.Model.Metas[d.DataId].Owner
+		sdid, sidDid := e.signAs(signer, mo, op.Sid)
+		p := saotypes.PermissionProposal{Owner: sdid, DataId: d.DataId}
 		for _, i := range op.L {
 			if x := e.actor(i); x != nil {
 				p.ReadonlyDids = append(p.ReadonlyDids, x.Did)
@@ -455,12 +540,12 @@ func (e *Env) build(op *Op) (*Built, string) {
 		alt := p
 		alt.ReadwriteDids = nil
 		alt.ReadonlyDids = []string{signer.Did}
-		if op.Tam == "ownerfield" {
-			p.Owner = owner.Did
+		if op.Tam == "ownerfield" && mo != "" {
+			p.Owner = mo
 		}
-		sig := e.jws(signer, &p, op.Tam, &alt)
+		sig := e.jwsAs(signer, sidDid, &p, op.Tam, &alt)
 		return &Built{Msgs: []sdk.Msg{saotypes.NewMsgUpdataPermission(a.AddrS, p, sig, prov.AddrS)}, Signer: a,
-			Auth: &AuthTruth{SignerDid: signer.Did, Intact: op.Tam == "" || (op.Tam == "ownerfield" && owner != nil && owner.Did == signer.Did), DataIds: []string{d.DataId}, Kind: "perm"}}, ""
+			Auth: &AuthTruth{SignerDid: sdid, Intact: op.Tam == "" || (op.Tam == "ownerfield" && p.Owner == sdid), DataIds: []string{d.DataId}, Kind: "perm"}}, ""
 	case "report", "recover":
 		acc := e.ref(op.Acc, nil)
 		if acc == nil {
@@ -576,8 +661,16 @@ func (e *Env) buildStore(op *Op, a *Actor) (*Built, string) {
 	default:
 		return nil, "bad-mode"
 	}
+	sdid := e.signerDid(signer, op.Sid)
+	if owner != nil && meta.Owner != "" && e.actorOfDid(meta.Owner) == signer && strings.HasPrefix(meta.Owner, "did:sid:") {
+		sdid = meta.Owner // the owner of a sid-owned model signs as that sid
+	}
+	sidDid := ""
+	if strings.HasPrefix(sdid, "did:sid:") {
+		sidDid = sdid
+	}
 	p := saotypes.Proposal{
-		Owner:     signer.Did,
+		Owner:     sdid,
 		Provider:  pp.AddrS,
 		GroupId:   "g",
 		Duration:  op.Dur,
@@ -599,13 +692,13 @@ func (e *Env) buildStore(op *Op, a *Actor) (*Built, string) {
 		p.PaymentDid = sp.Did
 	}
 	if op.Tam == "ownerfield" && owner != nil {
-		p.Owner = owner.Did
+		p.Owner = meta.Owner
 	}
 	alt := p
 	alt.Size_ = p.Size_ + 1
-	sig := e.jws(signer, &p, op.Tam, &alt)
+	sig := e.jwsAs(signer, sidDid, &p, op.Tam, &alt)
 	d.NextVer++
 	return &Built{Msgs: []sdk.Msg{saotypes.NewMsgStore(a.AddrS, &p, &sig, prov.AddrS)}, Signer: a,
-		Auth: &AuthTruth{SignerDid: signer.Did, Intact: op.Tam == "" || (op.Tam == "ownerfield" && owner != nil && owner.Did == signer.Did), DataIds: []string{d.DataId}, Kind: "store"},
+		Auth: &AuthTruth{SignerDid: sdid, Intact: op.Tam == "" || (op.Tam == "ownerfield" && p.Owner == sdid), DataIds: []string{d.DataId}, Kind: "store"},
 		Info: "commit=" + commitField}, ""
 }
